@@ -307,6 +307,6 @@ func (e *Engine) verifyBitVector(fn *ssa.Function, c *Contract) *FuncResult {
 		ob.NegGoal = "(not " + g.s + ")"
 		e.obls = append(e.obls, ob)
 	}
-	e.note("bitvector contract: exact machine arithmetic (QF_BV), all inputs")
+	res.Notes = append(res.Notes, "bitvector contract: exact machine arithmetic (QF_BV), all inputs")
 	return res
 }
